@@ -7,24 +7,17 @@ Launched by vf/checks/c30.py as
 with a fixed minimal environment (PYTHONHASHSEED, PYTHONMALLOC, ...) so that the
 process is itself deterministic.  It never imports anything from /verif.
 
-spec = {"repo": "/repo", "pad": n,
-        "forks":  [[[program, target, level], ...], ...],   # short histories
-        "script": [[program, target, level], ...]}          # one long history
+spec = {"repo": "/repo", "pad": n, "script": [[program, target, level], ...]}
 
 Order of events (fixed; this is what makes the configuration a *state*):
   1. read the spec,
   2. heap padding: n groups of objects of several size classes that stay alive,
   3. import ppci.api and load the target modules (get_arch),
-  4. every sequence of "forks" is executed in a forked copy of that pristine
-     process: a fork is an exact copy of the address space, so its first
-     operation is compiled exactly as the first compilation of a fresh process
-     in this configuration, the second one after exactly one earlier
-     compilation, ...
-  5. "script" is executed in the process itself: the history of operation j is
-     the operations 0..j-1.
+  4. the script is executed in the process itself: operation 0 is the first
+     compilation of a fresh process, the history of operation j is 0..j-1.
 
 One JSON line per executed operation:
-  {"k": "f"|"s", "i": sequence index, "j": position, "prog", "target", "level",
+  {"j": position, "prog", "target", "level",
    "stages": [[stage, function, digest], ...], "obj": digest, "img": digest | "!Exc@where"}
   or "error": "ExcType@file.py:function" instead of obj/img when the compiler raises.
 The same records plus the stage texts are always written to fd 3 (/dev/null or a file).
@@ -396,13 +389,13 @@ def side_channel(rec, events):
     emit(out, 3)
 
 
-def run_ops(kind, idx, ops):
+def run_ops(ops):
     """Execute a sequence of compile operations in this process, one record each."""
     import time
     for j, (prog, target, level) in enumerate(ops):
         c0 = time.process_time()
         rec, events = compile_op(prog, target, level)
-        rec.update({"k": kind, "i": idx, "j": j, "prog": prog, "target": target, "level": level,
+        rec.update({"j": j, "prog": prog, "target": target, "level": level,
                     "cpu": round(time.process_time() - c0, 3)})
         emit(rec)
         side_channel(rec, events)
@@ -432,35 +425,16 @@ def main():
     if os.path.realpath(got) != os.path.realpath(spec["repo"]):
         emit({"harness_error": "ppci imported from %s" % got})
         return 2
-    forks = spec.get("forks", [])
-    script = spec.get("script", [])
+    script = spec["script"]
     # process set-up that any user of these targets performs: load the target modules
-    for t in sorted({op[1] for seq in forks for op in seq} | {op[1] for op in script}):
+    for t in sorted({op[1] for op in script}):
         api.get_arch(t)
-    # 1. short histories from the pristine state: each sequence runs in a forked copy of it
-    for idx, seq in enumerate(forks):
-        pid = os.fork()
-        if pid == 0:
-            code = 0
-            try:
-                run_ops("f", idx, seq)
-            except BaseException as ex:  # noqa
-                try:
-                    emit({"k": "f", "i": idx, "harness_error": "%s: %s" % (type(ex).__name__, ex)})
-                except BaseException:  # noqa
-                    pass
-                code = 3
-            os._exit(code)
-        _, status = os.waitpid(pid, 0)
-        if status != 0:
-            emit({"k": "f", "i": idx, "harness_error": "child exit status %d" % status})
-    # 2. one long history in this process
     try:
-        run_ops("s", 0, script)
+        run_ops(script)
     except BaseException as ex:  # noqa
-        emit({"k": "s", "i": 0, "harness_error": "%s: %s" % (type(ex).__name__, ex)})
+        emit({"harness_error": "%s: %s" % (type(ex).__name__, ex)})
         return 3
-    emit({"done": len(script) + sum(len(q) for q in forks), "keep": len(keep),
+    emit({"done": len(script), "keep": len(keep),
           "seed": os.environ.get("PYTHONHASHSEED"), "malloc": os.environ.get("PYTHONMALLOC", "")})
     return 0
 
